@@ -418,6 +418,7 @@ def get_model_parser(top_rule, comments_model, **kwargs):
             Parses given string and creates model object graph.
             """
             old_debug_state = self.debug
+            instrumented = False
 
             try:
                 if debug is not None:
@@ -432,6 +433,7 @@ def get_model_parser(top_rule, comments_model, **kwargs):
                 self._user_class_inst = []
 
                 self._replace_user_attr_methods()
+                instrumented = True
 
                 # Transform parse tree to model. Skip root node which
                 # represents the whole file ending in EOF.
@@ -445,8 +447,12 @@ def get_model_parser(top_rule, comments_model, **kwargs):
                 )
 
             except:  # noqa
-                # Restore of user classes replaced attr methods
-                self._restore_user_attr_methods()
+                # Restore of user classes replaced attr methods (only if this
+                # load replaced them: a syntax error comes before that, and an
+                # unbalanced restore would switch off the instrumentation of
+                # an enclosing load that is still in progress)
+                if instrumented:
+                    self._restore_user_attr_methods()
                 raise
 
             finally:
